@@ -32,12 +32,12 @@ Definition hash_size (k : kshape) : option N :=
   | KOtherKey => None
   end.
 
-(* hashAlgFor: the smaller of the two; anything but 256/384 panics *)
+(* hashAlgFor: the smaller of the two; anything but 256/384 is an error (it was a panic before the fix of D50) *)
 Definition hash_alg_for (dev owner : kshape) : outcome Z :=
   match hash_size dev, hash_size owner with
   | Some d, Some o =>
     let m := N.min d o in
-    if (m =? 256)%N then Ok (-16) else if (m =? 384)%N then Ok (-43) else Panic PExplicit
+    if (m =? 256)%N then Ok (-16) else if (m =? 384)%N then Ok (-43) else Err EOther
   | _, _ => Err EOther
   end.
 
